@@ -7,3 +7,18 @@ use crate::CacheControl;
 pub fn cache_control_merge(a: CacheControl, b: &CacheControl) -> CacheControl {
     a.merge(b)
 }
+
+pub fn escape_string(s: &str) -> String {
+    crate::registry::verif_escape_string(s)
+}
+
+pub use crate::schema::{
+    verif_check_max_directives as check_max_directives,
+    verif_check_recursive_depth as check_recursive_depth,
+    verif_remove_skipped_selection as remove_skipped_selection,
+};
+
+#[cfg(feature = "dynamic-schema")]
+pub fn typeref_is_subtype(a: &crate::dynamic::TypeRef, b: &crate::dynamic::TypeRef) -> bool {
+    a.is_subtype(b)
+}
